@@ -201,6 +201,7 @@ ABTI_ktable_set_impl(ABTI_local *p_local, ABTI_ktable *p_ktable,
         pp_elem = &p_elem->p_next;
         p_elem = (ABTI_ktelem *)ABTD_atomic_acquire_load_ptr(pp_elem);
     }
+    ABTV_REACH("key.chain_append");
     /* Now the pp_elem points to the tail of the list.  Add a new element. */
     ABTI_STATIC_ASSERT((ABTU_MAX_ALIGNMENT & (ABTU_MAX_ALIGNMENT - 1)) == 0);
     size_t ktelem_size = (sizeof(ABTI_ktelem) + ABTU_MAX_ALIGNMENT - 1) &
@@ -253,6 +254,7 @@ ABTU_ret_err static inline int ABTI_ktable_set(ABTI_global *p_global,
                     continue;
                 }
                 /* It has been locked by another. */
+                ABTV_REACH("key.table_creation_race_lost");
                 while (p_ktable == ABTI_KTABLE_LOCKED) {
                     ABTD_atomic_pause();
                     p_ktable = ABTD_atomic_acquire_load_ptr(pp_ktable);
